@@ -17,18 +17,28 @@ RULE = ("byte strings (all 256 values incl. NUL for the sized encoder; lengths 0
         "internal decoder on exact-size heap blocks; query strings (empty pieces, missing '=', empty keys, duplicate keys in both "
         "cases, escapes incl. %00) under all 4 flag sets plus the whole-URI entry point; markup-heavy strings through htmlescape; "
         "plus every string of length <= L over '%41aAg+?&=; ' (decoder, encoder, query) and over '<>&\"\\'a;#l0 q' (htmlescape), "
-        "quick L=4, thorough L=7; non-trivial = contains an escape, '+', '&' or markup character (len >= 2 for encoder inputs); "
+        "quick L=4, thorough L=6; non-trivial = contains an escape, '+', '&' or markup character (len >= 2 for encoder inputs); "
         "distinct = hash of the input")
-STEPS = [
-    dict(flavor="asan", harness="h_uri", args=["--mode", "enc"], cases=dict(quick=20000, thorough=2000000), env=ENV),
-    dict(flavor="asan", harness="h_uri", args=["--mode", "dec"], cases=dict(quick=40000, thorough=5000000), env=ENV, seed_off=3),
-    dict(flavor="asan", harness="h_uri", args=["--mode", "query"], cases=dict(quick=40000, thorough=5000000), env=ENV, seed_off=5),
-    dict(flavor="asan", harness="h_uri", args=["--mode", "html"], cases=dict(quick=20000, thorough=2000000), env=ENV, seed_off=7),
-    dict(flavor="asan", harness="h_uri", args=["--mode", "xenum", "--n1", 4, "--n2", 512], tiers=("quick",),
-         cases=dict(quick=_xenum_cases(4, 512)), env=ENV),
-    dict(flavor="asan", harness="h_uri", args=["--mode", "xenum", "--n1", 7, "--n2", 16384], tiers=("thorough",),
-         cases=dict(thorough=_xenum_cases(7, 16384)), env=ENV, timeout=3000),
-]
+def _st(mode, quick=None, thorough=None, shards=None, seed_off=0, extra=()):
+    """one step dict per tier: few shards in the quick tier (process start + leak check cost more than a shard's work)"""
+    out = []
+    for tier, n, sh in (("quick", quick, shards), ("thorough", thorough, None)):
+        if n is None:
+            continue
+        d = dict(flavor="asan", harness="h_uri", args=["--mode", mode] + list(extra), tiers=(tier,), cases={tier: n}, env=ENV,
+                 seed_off=seed_off, timeout=3000)
+        if sh:
+            d["shards"] = sh
+        out.append(d)
+    return out
+
+
+STEPS = (_st("enc", quick=20000, thorough=2000000, shards=4)
+         + _st("dec", quick=40000, thorough=5000000, shards=4, seed_off=3)
+         + _st("query", quick=40000, thorough=5000000, shards=4, seed_off=5)
+         + _st("html", quick=20000, thorough=2000000, shards=2, seed_off=7)
+         + _st("xenum", quick=_xenum_cases(4, 512), shards=4, extra=["--n1", 4, "--n2", 512])
+         + _st("xenum", thorough=_xenum_cases(6, 4096), extra=["--n1", 6, "--n2", 4096]))
 REQUIRED = ["enc_roundtrips", "enc_with_nul", "enc_plus_mode", "enc_cstr_equiv", "dec_calls", "dec_internal_exact", "dec_pct_valid",
             "dec_pct_truncated", "dec_pct_badhex", "dec_plus_converted", "dec_plus_kept", "dec_deprecated", "query_parses", "query_ok",
             "query_fail", "query_pairs", "query_lastval_replaced", "query_empty_key_skipped", "query_novalue_tolerated",
@@ -41,7 +51,7 @@ REG = dict(
           "length (exact-size heap blocks under ASan, including the internal decoder on unterminated input), "
           "evhttp_parse_query_str(_flags)/evhttp_parse_query compared pair-by-pair with a reference splitter for all flag sets, "
           "evhttp_htmlescape compared with the documented replacements and unescaped back."),
-    note=("Sampled plus exhaustive over two 12-symbol alphabets up to length 4 (quick) / 7 (thorough). Calibrated where the header is "
+    note=("Sampled plus exhaustive over two 12-symbol alphabets up to length 4 (quick) / 6 (thorough). Calibrated where the header is "
           "silent: query keys are not decoded, keys compare ASCII-case-insensitively for LAST_VAL, one trailing '&' is ignored, values "
           "end at a decoded NUL, a failed parse leaves no pairs."),
     technique="generated + exhaustive short inputs vs independent reference codec/splitter, exact-size heap blocks under ASan/UBSan",
